@@ -1,10 +1,10 @@
-// Witness finder for the SESSION properties C09, C10, C15 (session part), C17, C18 and the session parts of C19 and C03: drives the REAL ServerSession /
+// Witness finder for the SESSION properties C02, C09, C10, C15 (session part), C17, C18 and the session parts of C19 and C03: drives the REAL ServerSession /
 // ClientSession of the crate under test through scripted scenarios plus pseudo-random variations and compares what
 // they return with oracles written from the property statements (/verif/properties.jsonl).  Peer byte streams are
 // produced with the real ChunkSerializer (verified conformant, C07) from message bodies encoded HERE (own AMF0
 // encoder, deterministic property order) or as raw reference chunks (ref_chunk, copied from chunk_witness.rs).
 // It never decides a verdict; it only tries to turn a failed / undecided proof obligation into a concrete failing input.
-// usage: session_witness <c09|c10|c15|c17|c18|c19|c03> [seed]     exit 1 + last line "WITNESS ..." if a failing input is found,
+// usage: session_witness <c02|c09|c10|c15|c17|c18|c19|c03> [seed]     exit 1 + last line "WITNESS ..." if a failing input is found,
 //        else exit 0 + "NONE".  Nothing here depends on wall-clock values: timestamps of session-generated messages
 //        are never compared.  Every call into the crate under test runs under a watchdog (a call that does not return within
 //        2.5 s is a WITNESS "HANG ...") and under a counting global allocator (live heap above the budget is a WITNESS).
@@ -19,7 +19,7 @@ use rml_amf0::Amf0Value;
 use rml_rtmp::chunk_io::{ChunkDeserializer, ChunkSerializer, Packet};
 use rml_rtmp::messages::{MessagePayload, RtmpMessage, UserControlEventType};
 use rml_rtmp::sessions::{
-    ClientSession, ClientSessionConfig, ClientSessionEvent, ClientSessionResult, PublishRequestType, ServerSession,
+    ClientSession, ClientSessionConfig, ClientSessionEvent, ClientSessionResult, PublishMode, PublishRequestType, ServerSession,
     ServerSessionConfig, ServerSessionEvent, ServerSessionResult, StreamMetadata,
 };
 use rml_rtmp::time::RtmpTimestamp;
@@ -1508,6 +1508,262 @@ fn mode_c10(seed: u64) {
 }
 
 
+// ================================================================ C02: a REAL ClientSession and a REAL ServerSession exchanging their output bytes
+// Each direction is a byte queue.  A scheduler (everything queued at once / byte by byte / seeded random pieces of 1, 7, ... bytes in a
+// random direction) delivers pieces until nothing but Acknowledgement packets is left queued (those wait for the next real bytes: with
+// a window of 1 on both sides acknowledgements answer acknowledgements for ever, that is the protocol and not a finding).  When a window
+// below 100 is configured, a run of queued Acknowledgement packets is delivered in one call (otherwise acknowledgements of 1-byte
+// deliveries multiply without bound); all other bytes, and all acknowledgements for larger windows, are fragmented like anything else.
+// The server application accepts every request right after the call that raised it.
+#[derive(Clone, Debug)]
+enum It { Meta(StreamMetadata), Audio(u32, usize, bool), Video(u32, usize, bool), Ping, PingBack }
+#[derive(Clone, Copy, PartialEq, Debug)]
+enum Sched { Whole, Bytewise, Random }
+struct Seg { b: Vec<u8>, pos: usize, ack: bool }
+struct Queue { segs: std::collections::VecDeque<Seg>, obs: OutDec, real: usize, bytes: usize }
+impl Queue {
+    fn new() -> Queue { Queue { segs: std::collections::VecDeque::new(), obs: OutDec::new(), real: 0, bytes: 0 } }
+    fn push(&mut self, pk: Vec<u8>) {
+        let ack = match self.obs.feed(&pk) { Ok(v) => !v.is_empty() && v.iter().all(|o| o.is_ack()), Err(_) => false };
+        if pk.is_empty() { return; }
+        self.bytes += pk.len();
+        if ack { if let Some(l) = self.segs.back_mut() { if l.ack { l.b.extend_from_slice(&pk); return; } } } else { self.real += 1; }
+        self.segs.push_back(Seg { b: pk, pos: 0, ack });
+    }
+    fn real_pending(&self) -> bool { self.real > 0 }
+    fn total(&self) -> usize { self.bytes }
+    fn ack_prefix(&self) -> usize { self.segs.iter().take_while(|s| s.ack).map(|s| s.b.len() - s.pos).sum() }
+    fn take(&mut self, mut n: usize) -> Vec<u8> {
+        let mut out = Vec::with_capacity(n);
+        while n > 0 {
+            let done = { let s = match self.segs.front_mut() { Some(s) => s, None => break }; let k = std::cmp::min(n, s.b.len() - s.pos); out.extend_from_slice(&s.b[s.pos..s.pos + k]); s.pos += k; n -= k; s.pos == s.b.len() };
+            if done { if let Some(s) = self.segs.pop_front() { if !s.ack { self.real -= 1; } } }
+        }
+        self.bytes -= out.len();
+        out
+    }
+}
+struct Pair { cli: ClientSession, srv: ServerSession, to_srv: Queue, to_cli: Queue, cev: Vec<ClientSessionEvent>, sev: Vec<ServerSessionEvent>, desc: String, sched: Sched, rng: Rng, tiny: bool, calls: u64, conn_seen: u32, reject_later_connects: bool, turn: bool }
+impl Pair {
+    fn fail(&self, what: String) -> ! { witness(format!("[c02] {}: {} (after {} input calls)", self.desc, what, self.calls)) }
+    fn c_out<E: std::fmt::Display>(&mut self, what: &str, r: Result<Result<Vec<ClientSessionResult>, E>, String>) {
+        match r { Err(e) => self.fail(format!("client {}: {}", what, e)), Ok(Err(e)) => self.fail(format!("client {} failed: {}", what, e)),
+            Ok(Ok(rs)) => for r in rs { match r { ClientSessionResult::OutboundResponse(p) => self.to_srv.push(p.bytes), ClientSessionResult::RaisedEvent(e) => self.cev.push(e), _ => () } } }
+    }
+    fn s_out(&mut self, what: &str, r: Result<Result<Vec<ServerSessionResult>, String>, String>) {
+        let rs = match r { Err(e) => self.fail(format!("server {}: {}", what, e)), Ok(Err(e)) => self.fail(format!("server {} failed: {}", what, e)), Ok(Ok(rs)) => rs };
+        let mut reqs = vec![];
+        for r in rs { match r { ServerSessionResult::OutboundResponse(p) => self.to_cli.push(p.bytes), ServerSessionResult::RaisedEvent(e) => { if let Some(id) = sreq_id(&e) { reqs.push((id, matches!(e, ServerSessionEvent::ConnectionRequested { .. }))); } self.sev.push(e); } _ => () } }
+        for (id, is_conn) in reqs {
+            let accept = if is_conn { self.conn_seen += 1; !(self.reject_later_connects && self.conn_seen > 1) } else { true };
+            let srv = &mut self.srv;
+            let r = if accept { guard("accept_request", || srv.accept_request(id).map_err(|e| format!("{}", e))) } else { guard("reject_request", || srv.reject_request(id, "NetConnection.Connect.Rejected", "only one connection").map_err(|e| format!("{}", e))) };
+            self.s_out(if accept { "accept_request" } else { "reject_request" }, r);
+        }
+    }
+    fn deliver(&mut self, to_server: bool) {
+        let q = if to_server { &mut self.to_srv } else { &mut self.to_cli };
+        let total = q.total(); if total == 0 { return; }
+        let pre = q.ack_prefix();
+        let n = if self.tiny && pre > 0 { pre } else { match self.sched { Sched::Whole => total, Sched::Bytewise => 1,
+            Sched::Random => match self.rng.below(6) { 0 => 1, 1 => 7, 2 => 1 + self.rng.below(64) as usize, 3 => total, _ => 1 + self.rng.below(total as u64) as usize } } };
+        let b = q.take(std::cmp::min(n, total));
+        self.calls += 1;
+        ctx(format!("c02 {}: input call #{} ({} bytes to the {})", self.desc, self.calls, b.len(), if to_server { "server" } else { "client" }));
+        if to_server { let srv = &mut self.srv; let r = guard("ServerSession::handle_input", || srv.handle_input(&b).map_err(|e| format!("{}", e))); self.s_out(&format!("handle_input({} bytes)", b.len()), r); }
+        else { let cli = &mut self.cli; let r = guard("ClientSession::handle_input", || cli.handle_input(&b)); self.c_out(&format!("handle_input({} bytes)", b.len()), r); }
+    }
+    // one scheduler step; false if only acknowledgements (or nothing) are queued
+    fn step(&mut self) -> bool {
+        let (a, b) = (self.to_srv.real_pending(), self.to_cli.real_pending());
+        if !a && !b { return false; }
+        let dir = if a && b { if self.sched == Sched::Random { self.rng.below(2) == 0 } else { self.turn = !self.turn; self.turn } } else { a };
+        self.deliver(dir); true
+    }
+    fn settle(&mut self) { let mut n = 0u64; while self.step() { n += 1; if n > 20_000_000 { self.fail("the exchange does not come to rest".into()); } } }
+}
+// compact, complete and injective enough for comparison: every field, the encoder string by length, checksum and a short prefix
+fn meta_eq_desc(m: &StreamMetadata) -> String {
+    fn o<T: std::fmt::Debug>(v: &Option<T>) -> String { match v { Some(x) => format!("{:?}", x), None => "-".to_string() } }
+    format!("{{width {} height {} videocodecid {} framerate {} videodatarate {} audiocodecid {} audiodatarate {} audiosamplerate {} audiochannels {} stereo {} encoder {}}}", o(&m.video_width), o(&m.video_height), o(&m.video_codec_id), o(&m.video_frame_rate),
+        o(&m.video_bitrate_kbps), o(&m.audio_codec_id), o(&m.audio_bitrate_kbps), o(&m.audio_sample_rate), o(&m.audio_channels), o(&m.audio_is_stereo),
+        match &m.encoder { Some(e) => format!("({} bytes, sum {:x}) {:?}", e.len(), sum(e.as_bytes()), e.chars().take(24).collect::<String>()), None => "-".to_string() })
+}
+struct Scn { app: &'static str, expect_app: &'static str, key: &'static str, publish: Option<u8>, items: Vec<It>, ccs: u32, scs: u32, cw: u32, sw: u32, sched: Sched, seed: u64, double_connect: bool, drip: bool, name: String }
+fn c02_run(s: &Scn) {
+    let desc = format!("{} [{} app {:?} key {:?}{}; client chunk size {} window {}, server chunk size {} window {}; delivery {:?} seed {}{}]", s.name, match s.publish { Some(0) => "publish live", Some(1) => "publish record", Some(_) => "publish append", None => "play" }, s.app, s.key,
+        if s.double_connect { "; a second connect(\"other\") is sent before any answer and rejected by the server application" } else { "" }, s.ccs, s.cw, s.scs, s.sw, s.sched, s.seed, if s.drip { ", items interleaved with deliveries" } else { "" });
+    ctx(format!("c02 {}", desc));
+    let mut ccfg = ClientSessionConfig::new(); ccfg.chunk_size = s.ccs; ccfg.window_ack_size = s.cw;
+    let mut scfg = ServerSessionConfig::new(); scfg.chunk_size = s.scs; scfg.window_ack_size = s.sw;
+    let (srv, sinit) = match guard("ServerSession::new", || ServerSession::new(scfg)) { Ok(Ok(x)) => x, Ok(Err(e)) => witness(format!("[c02] {}: ServerSession::new failed: {}", desc, e)), Err(e) => witness(format!("[c02] {}: {}", desc, e)) };
+    let (cli, cinit) = match guard("ClientSession::new", || ClientSession::new(ccfg)) { Ok(Ok(x)) => x, Ok(Err(e)) => witness(format!("[c02] {}: ClientSession::new failed: {}", desc, e)), Err(e) => witness(format!("[c02] {}: {}", desc, e)) };
+    let mut p = Pair { cli, srv, to_srv: Queue::new(), to_cli: Queue::new(), cev: vec![], sev: vec![], desc, sched: s.sched, rng: Rng(s.seed ^ 0xC02C02), tiny: std::cmp::min(s.cw, s.sw) < 100, calls: 0, conn_seen: 0, reject_later_connects: s.double_connect, turn: false };
+    p.s_out("constructor", Ok(Ok(sinit))); p.c_out::<String>("constructor", Ok(Ok(cinit)));
+    // ---- connect
+    { let cli = &mut p.cli; let app = s.app.to_string(); let r = guard("request_connection", || cli.request_connection(app).map(|x| vec![x])); p.c_out("request_connection", r); }
+    if s.double_connect { let cli = &mut p.cli; let r = guard("request_connection", || cli.request_connection("other".to_string()).map(|x| vec![x])); p.c_out("second request_connection (first one still unanswered)", r); }
+    p.settle();
+    let n_acc = p.cev.iter().filter(|e| **e == ClientSessionEvent::ConnectionRequestAccepted).count();
+    let conn: Vec<String> = p.sev.iter().filter_map(|e| if let ServerSessionEvent::ConnectionRequested { app_name, .. } = e { Some(app_name.clone()) } else { None }).collect();
+    let want_conn: Vec<String> = if s.double_connect { vec![s.expect_app.to_string(), "other".to_string()] } else { vec![s.expect_app.to_string()] };
+    if conn != want_conn { p.fail(format!("connect: the server raised connection requests for {:?}, expected {:?}", conn, want_conn)); }
+    if n_acc != 1 { p.fail(format!("connect: the client raised {} ConnectionRequestAccepted events, expected exactly one; client events: {:?}", n_acc, p.cev.iter().map(|e| trunc(&cev(e), 80)).collect::<Vec<_>>())); }
+    if s.double_connect && p.cev.iter().filter(|e| matches!(e, ClientSessionEvent::ConnectionRequestRejected { .. })).count() != 1 { p.fail("the rejected second connect was not reported to the client exactly once".into()); }
+    // ---- publish or play
+    { let cli = &mut p.cli; let key = s.key.to_string();
+      let r = match s.publish { Some(m) => guard("request_publishing", || cli.request_publishing(key, match m { 0 => PublishRequestType::Live, 1 => PublishRequestType::Record, _ => PublishRequestType::Append }).map(|x| vec![x])), None => guard("request_playback", || cli.request_playback(key).map(|x| vec![x])) };
+      p.c_out(if s.publish.is_some() { "request_publishing" } else { "request_playback" }, r); }
+    p.settle();
+    let mut play_stream: u32 = 0;
+    match s.publish {
+        Some(m) => {
+            let want_mode = match m { 0 => PublishMode::Live, 1 => PublishMode::Record, _ => PublishMode::Append };
+            let reqs: Vec<&ServerSessionEvent> = p.sev.iter().filter(|e| matches!(e, ServerSessionEvent::PublishStreamRequested { .. } | ServerSessionEvent::PlayStreamRequested { .. })).collect();
+            let ok = reqs.len() == 1 && matches!(reqs[0], ServerSessionEvent::PublishStreamRequested { app_name, stream_key, mode, .. } if app_name == s.expect_app && stream_key == s.key && *mode == want_mode);
+            if !ok { p.fail(format!("publish: the server raised {:?}, expected exactly one PublishStreamRequested(app {:?}, key {:?}, mode {:?})", reqs.iter().map(|e| sev(e)).collect::<Vec<_>>(), s.expect_app, s.key, want_mode)); }
+            let n = p.cev.iter().filter(|e| **e == ClientSessionEvent::PublishRequestAccepted).count();
+            if n != 1 { p.fail(format!("publish: the client raised {} PublishRequestAccepted events, expected exactly one; client events: {:?}", n, p.cev.iter().map(|e| trunc(&cev(e), 80)).collect::<Vec<_>>())); }
+        }
+        None => {
+            let reqs: Vec<&ServerSessionEvent> = p.sev.iter().filter(|e| matches!(e, ServerSessionEvent::PublishStreamRequested { .. } | ServerSessionEvent::PlayStreamRequested { .. })).collect();
+            let ok = reqs.len() == 1 && matches!(reqs[0], ServerSessionEvent::PlayStreamRequested { app_name, stream_key, .. } if app_name == s.expect_app && stream_key == s.key);
+            if !ok { p.fail(format!("play: the server raised {:?}, expected exactly one PlayStreamRequested(app {:?}, key {:?})", reqs.iter().map(|e| sev(e)).collect::<Vec<_>>(), s.expect_app, s.key)); }
+            if let ServerSessionEvent::PlayStreamRequested { stream_id, .. } = reqs[0] { play_stream = *stream_id; }
+            let n = p.cev.iter().filter(|e| **e == ClientSessionEvent::PlaybackRequestAccepted).count();
+            if n != 1 { p.fail(format!("play: the client raised {} PlaybackRequestAccepted events, expected exactly one; client events: {:?}", n, p.cev.iter().map(|e| trunc(&cev(e), 80)).collect::<Vec<_>>())); }
+        }
+    }
+    // ---- media: client -> server while publishing, server -> client while the client plays
+    let mut want: Vec<String> = vec![];
+    for (i, it) in s.items.iter().enumerate() {
+        let publishing = s.publish.is_some();
+        match it {
+            It::Meta(m) => { want.push(format!("metadata {}", meta_eq_desc(m)));
+                if publishing { let cli = &mut p.cli; let r = guard("publish_metadata", || cli.publish_metadata(m).map(|x| vec![x])); p.c_out("publish_metadata", r); }
+                else { let srv = &mut p.srv; let r = guard("send_metadata", || srv.send_metadata(play_stream, m).map(|pk| vec![ServerSessionResult::OutboundResponse(pk)]).map_err(|e| format!("{}", e))); p.s_out("send_metadata", r); } }
+            It::Audio(ts, len, dr) | It::Video(ts, len, dr) => {
+                let video = matches!(it, It::Video(..)); let d = payload(*len, i as u8);
+                want.push(format!("{} ts={} len={} sum={:x}", if video { "video" } else { "audio" }, ts, len, sum(&d)));
+                let (ts, dr) = (*ts, *dr);
+                if publishing { let cli = &mut p.cli; let r = guard("publish_*_data", || if video { cli.publish_video_data(Bytes::from(d), RtmpTimestamp::new(ts), dr) } else { cli.publish_audio_data(Bytes::from(d), RtmpTimestamp::new(ts), dr) }.map(|x| vec![x])); p.c_out(if video { "publish_video_data" } else { "publish_audio_data" }, r); }
+                else { let srv = &mut p.srv; let r = guard("send_*_data", || if video { srv.send_video_data(play_stream, Bytes::from(d), RtmpTimestamp::new(ts), dr) } else { srv.send_audio_data(play_stream, Bytes::from(d), RtmpTimestamp::new(ts), dr) }.map(|pk| vec![ServerSessionResult::OutboundResponse(pk)]).map_err(|e| format!("{}", e))); p.s_out(if video { "send_video_data" } else { "send_audio_data" }, r); }
+            }
+            It::Ping | It::PingBack => {
+                if matches!(it, It::Ping) == publishing { let cli = &mut p.cli; let r = guard("send_ping_request", || cli.send_ping_request().map(|t| vec![ClientSessionResult::OutboundResponse(t.0)])); p.c_out("send_ping_request", r); }
+                else { let srv = &mut p.srv; let r = guard("send_ping_request", || srv.send_ping_request().map(|t| vec![ServerSessionResult::OutboundResponse(t.0)]).map_err(|e| format!("{}", e))); p.s_out("send_ping_request", r); }
+            }
+        }
+        if s.drip { for _ in 0..p.rng.below(4) { if !p.step() { break; } } }
+    }
+    p.settle();
+    let got = |p: &Pair| -> Vec<String> {
+        if s.publish.is_some() { p.sev.iter().filter_map(|e| match e {
+            ServerSessionEvent::StreamMetadataChanged { app_name, stream_key, metadata } => Some(format!("metadata {}{}", meta_eq_desc(metadata), if app_name == s.expect_app && stream_key == s.key { String::new() } else { format!(" TAGGED app {:?} key {:?}", app_name, stream_key) })),
+            ServerSessionEvent::AudioDataReceived { app_name, stream_key, data, timestamp } => Some(format!("audio ts={} len={} sum={:x}{}", timestamp.value, data.len(), sum(data), if app_name == s.expect_app && stream_key == s.key { String::new() } else { format!(" TAGGED app {:?} key {:?}", app_name, stream_key) })),
+            ServerSessionEvent::VideoDataReceived { app_name, stream_key, data, timestamp } => Some(format!("video ts={} len={} sum={:x}{}", timestamp.value, data.len(), sum(data), if app_name == s.expect_app && stream_key == s.key { String::new() } else { format!(" TAGGED app {:?} key {:?}", app_name, stream_key) })),
+            _ => None }).collect() }
+        else { p.cev.iter().filter_map(|e| match e {
+            ClientSessionEvent::StreamMetadataReceived { metadata } => Some(format!("metadata {}", meta_eq_desc(metadata))),
+            ClientSessionEvent::AudioDataReceived { data, timestamp } => Some(format!("audio ts={} len={} sum={:x}", timestamp.value, data.len(), sum(data))),
+            ClientSessionEvent::VideoDataReceived { data, timestamp } => Some(format!("video ts={} len={} sum={:x}", timestamp.value, data.len(), sum(data))),
+            _ => None }).collect() }
+    };
+    let check_media = |p: &Pair, when: &str| {
+        let g = got(p);
+        if g != want {
+            let i = (0..std::cmp::max(g.len(), want.len())).find(|&i| g.get(i) != want.get(i)).unwrap_or(0);
+            p.fail(format!("{}: the {} raised {} media/metadata events for {} items sent by the {}; first difference at item #{}: sent {} ; raised {} (expected app {:?}, key {:?})", when, if s.publish.is_some() { "server" } else { "client" }, g.len(), want.len(), if s.publish.is_some() { "client" } else { "server" }, i,
+                want.get(i).map(|x| x.as_str()).unwrap_or("<nothing>"), g.get(i).map(|x| x.as_str()).unwrap_or("<nothing>"), s.expect_app, s.key));
+        }
+    };
+    check_media(&p, "after all items were delivered");
+    // the sending side must not have seen media
+    let stray = if s.publish.is_some() { p.cev.iter().filter(|e| matches!(e, ClientSessionEvent::AudioDataReceived { .. } | ClientSessionEvent::VideoDataReceived { .. } | ClientSessionEvent::StreamMetadataReceived { .. })).count() }
+                else { p.sev.iter().filter(|e| matches!(e, ServerSessionEvent::AudioDataReceived { .. } | ServerSessionEvent::VideoDataReceived { .. } | ServerSessionEvent::StreamMetadataChanged { .. })).count() };
+    if stray != 0 { p.fail(format!("the sending side raised {} media events itself", stray)); }
+    // ---- stop
+    { let cli = &mut p.cli; let r = if s.publish.is_some() { guard("stop_publishing", || cli.stop_publishing()) } else { guard("stop_playback", || cli.stop_playback()) }; p.c_out("stop", r); }
+    p.settle();
+    let fin: Vec<String> = p.sev.iter().filter_map(|e| match e { ServerSessionEvent::PublishStreamFinished { app_name, stream_key } => Some(format!("PublishStreamFinished({},{})", app_name, stream_key)), ServerSessionEvent::PlayStreamFinished { app_name, stream_key } => Some(format!("PlayStreamFinished({},{})", app_name, stream_key)), _ => None }).collect();
+    let want_fin = vec![format!("{}({},{})", if s.publish.is_some() { "PublishStreamFinished" } else { "PlayStreamFinished" }, s.expect_app, s.key)];
+    if fin != want_fin { p.fail(format!("stop: the server raised finished events {:?}, expected exactly {:?}", fin, want_fin)); }
+    check_media(&p, "after the stop");
+    stat(&format!("c02 scenarios ({:?})", s.sched));
+    if debug() { stat(&format!("c02 input calls ({:?}) x{}", s.sched, 0)); if let Ok(mut g) = STATS.lock() { if let Some(e) = g.iter_mut().find(|e| e.0.starts_with(&format!("c02 input calls ({:?})", s.sched))) { e.1 += p.calls; } } }
+}
+fn c02_metadata_items() -> Vec<It> {
+    let mut v = vec![It::Meta(StreamMetadata::new()), It::Meta(full_metadata())];
+    let rates = [0.0f32, 23.976, 29.97, 60.0, 1.0];
+    let enc = ["".to_string(), "ünï-çødé ✓ エンコーダ".to_string(), "e".repeat(1000), "obs".to_string(), "x".to_string()];
+    for (i, &n) in [0u32, 1, 1 << 24, 1 << 31, u32::MAX].iter().enumerate() {
+        let mut m = StreamMetadata::new();
+        m.video_width = Some(n); m.video_height = Some(n); m.video_codec_id = Some(n); m.video_frame_rate = Some(rates[i]); m.video_bitrate_kbps = Some(n);
+        m.audio_codec_id = Some(n); m.audio_bitrate_kbps = Some(n); m.audio_sample_rate = Some(n); m.audio_channels = Some(n); m.audio_is_stereo = Some(i % 2 == 0); m.encoder = Some(enc[i].clone());
+        v.push(It::Meta(m));
+    }
+    for f in 0..11 {
+        let mut m = StreamMetadata::new();
+        match f { 0 => m.video_width = Some(640), 1 => m.video_height = Some(480), 2 => m.video_codec_id = Some(7), 3 => m.video_frame_rate = Some(29.97), 4 => m.video_bitrate_kbps = Some(2500), 5 => m.audio_codec_id = Some(10),
+                  6 => m.audio_bitrate_kbps = Some(160), 7 => m.audio_sample_rate = Some(48000), 8 => m.audio_channels = Some(2), 9 => m.audio_is_stereo = Some(false), _ => m.encoder = Some("only".to_string()) }
+        v.push(It::Meta(m));
+    }
+    v
+}
+fn mode_c02(seed: u64) {
+    let chunks = [1u32, 2, 3, 4, 128, 4096, 65536];
+    let windows = [1u32, 100, 2_500_000];
+    let scheds = [Sched::Whole, Sched::Random, Sched::Bytewise];
+    let mut rng = Rng(seed.wrapping_mul(0x2545F4914F6CDD1D) ^ 0xC02);
+    const T: u32 = 0xFFFFFF;
+    let sizes = [0usize, 1, 127, 128, 129, 4095, 4096, 4097, 65_536, 70_000];
+    let stamps = [0u32, T - 1, T, 0x1000000, 0x80000000, 0xFFFFFFFF, 5, 0xFFFFFFFE, T, T, 2 * T, 1000, 999, 0];
+    // 1. every chunk-size pair x window pair, publish and play, short item list, delivery model rotating with the seed
+    let short = |k: u32| -> Vec<It> { let mut m = StreamMetadata::new(); m.video_width = Some(k); m.encoder = Some(format!("e{}", k));
+        vec![It::Meta(m), It::Video(0, 0, false), It::Audio(0, 1, false), It::Video(T, 129, true), It::Ping, It::Audio(T - 1, 127, true), It::Video(0x1000000, 1, false), It::PingBack, It::Audio(5, 128, false), It::Meta(full_metadata()), It::Video(0x80000000, 2, false), It::Video(0xFFFFFFFF, 3, true), It::Video(7, 0, false)] };
+    let mut k = 0u32;
+    for &ccs in &chunks { for &scs in &chunks { for &cw in &windows { for &sw in &windows {
+        for publish in [Some((k % 3) as u8), None] {
+            k += 1;
+            let sched = scheds[((k as u64 + seed) % 3) as usize];
+            c02_run(&Scn { app: "live", expect_app: "live", key: "stream-key", publish, items: short(k), ccs, scs, cw, sw, sched, seed: seed.wrapping_add(k as u64), double_connect: false, drip: k % 2 == 0, name: format!("grid #{}", k) });
+        }
+    } } } }
+    // 3. metadata: every field Some / None combination that matters, boundary numbers, frame rates, encoder strings
+    for (i, &(ccs, scs, cw, sw)) in [(4096u32, 4096u32, 2_500_000u32, 2_500_000u32), (1, 128, 100, 1), (128, 3, 1, 100)].iter().enumerate() { for &sched in &scheds { for publish in [Some(i as u8), None] {
+        c02_run(&Scn { app: "app/instance", expect_app: "app/instance", key: "key with spaces ✓", publish, items: c02_metadata_items(), ccs, scs, cw, sw, sched, seed: seed.wrapping_add(2000 + i as u64), double_connect: false, drip: true, name: "metadata variants".into() });
+    } } }
+    // 4. application name with ONE trailing slash: the server reports the normalised name (recorded deviation D-C02-slash); only the normalised name is checked
+    for &sched in &scheds { for publish in [Some(0u8), None] {
+        c02_run(&Scn { app: "live/", expect_app: "live", key: "k", publish, items: short(1), ccs: 4096, scs: 4096, cw: 2_500_000, sw: 2_500_000, sched, seed, double_connect: false, drip: false, name: "application name with a trailing slash".into() });
+    } }
+    // 5. a second connect from the same client while the first is unanswered, rejected by the server application: everything stays tagged with the accepted name
+    for &sched in &scheds { for publish in [Some(0u8), None] { for &(cs, w) in &[(4096u32, 2_500_000u32), (2, 100)] {
+        c02_run(&Scn { app: "alpha", expect_app: "alpha", key: "k", publish, items: short(2), ccs: cs, scs: cs, cw: w, sw: w, sched, seed: seed.wrapping_add(7), double_connect: true, drip: true, name: "second connect rejected".into() });
+    } } }
+    // 6. seeded random scripts and configurations
+    for r in 0..40u64 {
+        let n = 3 + rng.below(14) as usize; let mut items = vec![]; let mut t = rng.pick(&stamps);
+        for _ in 0..n { t = match rng.below(4) { 0 => rng.pick(&stamps), 1 => t.wrapping_add(rng.pick(&[0u32, 1, 33, T - 1, T, T + 1])), 2 => t.wrapping_sub(rng.pick(&[1u32, 1000, T])), _ => rng.next() as u32 };
+            match rng.below(8) { 0 => items.push(rng.pick(&c02_metadata_items().iter().collect::<Vec<_>>()).clone()), 1 => items.push(It::Ping), 2 => items.push(It::PingBack),
+                3 | 4 => items.push(It::Audio(t, rng.pick(&sizes[..8]), rng.below(2) == 0)), _ => items.push(It::Video(t, if rng.below(6) == 0 { rng.pick(&sizes) } else { rng.pick(&sizes[..8]) }, rng.below(2) == 0)) } }
+        let publish = match rng.below(6) { 0 | 1 => Some(0u8), 2 => Some(1), 3 => Some(2), _ => None };
+        c02_run(&Scn { app: "live", expect_app: "live", key: "rk", publish, items, ccs: rng.pick(&chunks), scs: rng.pick(&chunks), cw: rng.pick(&windows), sw: rng.pick(&windows), sched: rng.pick(&[Sched::Random, Sched::Random, Sched::Whole, Sched::Bytewise]), seed: seed.wrapping_add(5000 + r), double_connect: false, drip: rng.below(2) == 0, name: format!("random script #{}", r) });
+    }
+    // 2. all payload sizes and timestamps of the statement, audio and video, under every delivery model
+    let mut heavy = vec![];
+    for (i, &n) in sizes.iter().enumerate() { heavy.push(It::Video(stamps[i % stamps.len()], n, i % 3 == 0)); heavy.push(It::Audio(stamps[(i + 3) % stamps.len()], n, i % 4 == 1)); if i == 4 { heavy.push(It::Ping); heavy.push(It::Meta(full_metadata())); } }
+    for (i, &t) in stamps.iter().enumerate() { heavy.push(It::Video(t, 10 + i, false)); heavy.push(It::Audio(t.wrapping_add(1), 3, true)); }
+    let mut cfgs: Vec<(u32, u32, u32, u32)> = vec![(4096, 4096, 2_500_000, 2_500_000), (128, 4096, 100, 2_500_000), (4096, 128, 2_500_000, 100), (65536, 65536, 100, 100), (4, 3, 2_500_000, 2_500_000), (1, 65536, 1, 2_500_000), (65536, 2, 2_500_000, 1), (128, 128, 1, 1)];
+    for _ in 0..4 { cfgs.push((rng.pick(&chunks), rng.pick(&chunks), rng.pick(&windows), rng.pick(&windows))); }
+    for (i, &(ccs, scs, cw, sw)) in cfgs.iter().enumerate() { for (j, &sched) in scheds.iter().enumerate() {
+        if sched == Sched::Bytewise && i >= 6 && (i + j + seed as usize) % 2 == 0 { continue; }      // byte by byte over ~600 KB: every other configuration
+        for publish in [Some(0u8), None] {
+            c02_run(&Scn { app: "live", expect_app: "live", key: "k", publish, items: heavy.clone(), ccs, scs, cw, sw, sched, seed: seed.wrapping_add(1000 + i as u64), double_connect: false, drip: j == 1, name: format!("all sizes and timestamps, configuration #{}", i) });
+        }
+    } }
+}
+
 // ================================================================ C19 (sessions part): configuration values honoured or refused, never a hang
 const MAX_RESULTS: usize = 10_000;       // more results than this from one call for a few dozen input bytes is unbounded output
 const BUDGET: usize = 64 << 20;          // live-heap budget of one call in the c19 / c03 modes
@@ -1884,7 +2140,8 @@ fn main() {
         "c18" => mode_c18(seed),
         "c19" => mode_c19(seed),
         "c03" => mode_c03(seed),
-        _ => { eprintln!("usage: session_witness <c09|c10|c15|c17|c18|c19|c03> [seed]"); std::process::exit(2) }
+        "c02" => mode_c02(seed),
+        _ => { eprintln!("usage: session_witness <c02|c09|c10|c15|c17|c18|c19|c03> [seed]"); std::process::exit(2) }
     });
     if let Err(e) = r {
         let m = e.downcast_ref::<&str>().map(|s| s.to_string()).or_else(|| e.downcast_ref::<String>().cloned()).unwrap_or_default();
